@@ -895,6 +895,9 @@ func extraCommand(name string, args []string) bool {
 	case "bsi":
 		cmdBSI(args)
 		return true
+	case "pargate":
+		cmdParGate(args)
+		return true
 	case "fuzzdec64":
 		cmdFuzzDec64(args)
 		return true
